@@ -86,9 +86,9 @@ func forked(w *seqx.World) bool {
 const ruleForked = "states are distinct canonical keys (per replica: entry set, head set, clock, reverse-index keys); non-trivial = some replica has >=2 heads or two replicas overlap partially"
 
 func c02Searches(p *run.Part, tier string) []*seqx.Search {
-	depth, pdepth := 5, 2
+	depth, pdepth := 6, 2
 	if tier == "thorough" {
-		depth, pdepth = 7, 3
+		depth, pdepth = 8, 3
 	}
 	dl := Budget(tier)
 	mk := func(cfg *seqx.Config, prefix string, d int) *seqx.Search {
